@@ -10,7 +10,8 @@ package table
 //@      (forall j int :: 0 <= j && j < len(c.routes) ==> routeWf(c.routes[j]))
 //@   && (forall i int, j int :: 0 <= i && i < j && j < len(c.routes) ==> c.routes[i].ref != c.routes[j].ref)
 //@   && (forall j int :: 0 <= j && j < len(c.blacklist) ==> c.blacklist[j] != nil && wfm(*c.blacklist[j]))
-//@   && (forall j int :: 0 <= j && j < len(c.aggregators) ==> c.aggregators[j] != nil)
+//@   && (forall j int :: 0 <= j && j < len(c.aggregators) ==> c.aggregators[j] != nil && aggWf(c.aggregators[j]))
+//@   && (forall i int, j int :: 0 <= i && i < j && j < len(c.aggregators) ==> c.aggregators[i] != c.aggregators[j])
 //@ pred (t *Table) wf() :=
 //@      typeIs(mkiface(t.config.valtag, t.config.valref), TableConfig) && confWf(t.conf())
 //@   && t.numIn != nil && t.numInvalid != nil && t.numOutOfOrder != nil && t.numBlacklist != nil && t.numUnroutable != nil
@@ -18,7 +19,7 @@ package table
 //@   && t.numIn.ref != t.numInvalid.ref && t.numIn.ref != t.numOutOfOrder.ref && t.numIn.ref != t.numBlacklist.ref && t.numIn.ref != t.numUnroutable.ref
 //@   && t.numInvalid.ref != t.numOutOfOrder.ref && t.numInvalid.ref != t.numBlacklist.ref && t.numInvalid.ref != t.numUnroutable.ref
 //@   && t.numOutOfOrder.ref != t.numBlacklist.ref && t.numOutOfOrder.ref != t.numUnroutable.ref && t.numBlacklist.ref != t.numUnroutable.ref
-//@   && t.bad != nil
+//@   && t.bad != nil && t.bad.In != nil
 //@ spec accepts(r Route, name bytes) := matchSpec(routeMatcher(r), name)
 
 // ---------------------------------------------------------------- DispatchAggregate (C01, C11)
@@ -30,7 +31,7 @@ package table
 //@   requires table.wf()
 //@   let c := table.conf()
 //@   let name := nameOf(buf[..])
-//@   modifies allof("calls:route.Route.Dispatch"), allof("chan#sent"), allof("ghost:metrics.Counter.count")
+//@   modifies allof("calls:route.Route.Dispatch"), allof("chan:[]uint8#sent"), allof("ghost:metrics.Counter.count")
 //@   ensures[routes; C01,C11] forall j int :: 0 <= j && j < len(c.routes) ==>
 //@        calls(c.routes[j].Dispatch) == (accepts(c.routes[j], name) ? old(calls(c.routes[j].Dispatch)) ++ argsOf(buf) : old(calls(c.routes[j].Dispatch)))
 //@   ensures[no_other_route; C01] forall r ref :: (forall j int :: 0 <= j && j < len(c.routes) ==> c.routes[j].ref != r) ==>
@@ -49,3 +50,77 @@ package table
 //@        callsOf("route.Route.Dispatch", r) == old(callsOf("route.Route.Dispatch", r))
 //@     invariant[counters] forall k ref :: gh("metrics.Counter.tableOwned", k) ==> gh("metrics.Counter.count", k) == old(gh("metrics.Counter.count", k))
 //@     invariant[conf_kept] table.wf() && table.conf().routes == c.routes && buf == old(buf) && buf[..] == old(buf[..])
+
+// ---------------------------------------------------------------- Dispatch (C01, C02, C04, C11, C19)
+// rwStep(conf, k, x): the name x after the first k rewriters of the published table value conf
+// (defined by the two equations in the "define" clauses below).
+//@ smt (declare-fun rwStep (Int Int Bytes) Bytes)
+//@ spec consumedBy(c TableConfig, n bytes, k int) bool := exists j int :: 0 <= j && j < k && c.aggregators[j].DropRaw && matchSpec(c.aggregators[j].Matcher, n)
+//@ spec lineElem(line bytes, a int) elem := eP(eB(line, a), eNil)
+//@
+//@ func (table *Table) Dispatch(buf []byte)
+//@   property C01,C02,C04,C11,C19
+//@   requires table.wf() && validate.pkgInv()
+//@   let c    := table.conf()
+//@   let cref := table.config.valref
+//@   let B    := buf[..]
+//@   let ll   := c.Validation_level_legacy.Level
+//@   let lm   := c.Validation_level_m20.Level
+//@   let bad  := vpErr(B, ll, lm)
+//@   let key  := vpKey(B, ll, lm)
+//@   let ooo  := c.Validate_order && !(vpTs(B) > old(validate.m[fnv64a(key)]))
+//@   let f0   := field(B, 0)
+//@   let bl   := exists j int :: 0 <= j && j < len(c.blacklist) && matchSpec(*c.blacklist[j], f0)
+//@   let n1   := rwStep(cref, len(c.rewriters), f0)
+//@   let line := n1 ++ " " ++ field(B, 1) ++ " " ++ field(B, 2)
+//@   let pass := !bad && !ooo && !bl && !consumedBy(c, n1, len(c.aggregators))
+//@   define rwStep(cref, 0, f0) == f0
+//@   define forall k int :: 0 <= k && k < len(c.rewriters) ==> rwStep(cref, k + 1, f0) == rwSpec(c.rewriters[k], rwStep(cref, k, f0))
+//@   modifies *
+//@   ensures[in_once; C02]      table.numIn.count == old(table.numIn.count) + 1
+//@   ensures[buf_frame; C04]    buf[..] == old(buf[..])
+//@   ensures[invalid; C02]      table.numInvalid.count == old(table.numInvalid.count) + (bad ? 1 : 0)
+//@   ensures[reported; C02]     bad ==> (exists t elem :: sent(table.bad.In) == old(sent(table.bad.In)) ++ recordElem(key, B, vpMsg(B, ll, lm), t))
+//@   ensures[out_of_order; C19] table.numOutOfOrder.count == old(table.numOutOfOrder.count) + ((!bad && ooo) ? 1 : 0)
+//@   ensures[ooo_reported; C19] !bad && ooo ==> (exists t elem :: sent(table.bad.In) == old(sent(table.bad.In)) ++ recordElem(key, B, errMsg(validate.errNotNewer.ref), t))
+//@   ensures[no_report; C02]    !bad && !ooo ==> sent(table.bad.In) == old(sent(table.bad.In))
+//@   ensures[blacklisted; C01]  table.numBlacklist.count == old(table.numBlacklist.count) + ((!bad && !ooo && bl) ? 1 : 0)
+//@   ensures[aggs_quiet; C02,C11] (bad || ooo || bl) ==> (forall a ref :: callsOf("aggregator.Aggregator.AddMaybe", a) == old(callsOf("aggregator.Aggregator.AddMaybe", a)))
+//@   ensures[aggs; C11]         !bad && !ooo && !bl ==> (forall j int :: 0 <= j && j < len(c.aggregators) ==>
+//@        (consumedBy(c, n1, j) ? calls(c.aggregators[j].AddMaybe) == old(calls(c.aggregators[j].AddMaybe))
+//@                              : (exists e elem :: calls(c.aggregators[j].AddMaybe) == old(calls(c.aggregators[j].AddMaybe)) ++ e)))
+//@   ensures[routes; C01,C04]   pass ==> (exists a ref :: a != buf.arr && (forall j int :: 0 <= j && j < len(c.routes) ==>
+//@        calls(c.routes[j].Dispatch) == (accepts(c.routes[j], n1) ? old(calls(c.routes[j].Dispatch)) ++ lineElem(line, a) : old(calls(c.routes[j].Dispatch)))))
+//@   ensures[routes_quiet; C01,C02,C11,C19] !pass ==> (forall r ref :: callsOf("route.Route.Dispatch", r) == old(callsOf("route.Route.Dispatch", r)))
+//@   ensures[no_other_route; C01] forall r ref :: (forall j int :: 0 <= j && j < len(c.routes) ==> c.routes[j].ref != r) ==>
+//@        callsOf("route.Route.Dispatch", r) == old(callsOf("route.Route.Dispatch", r))
+//@   ensures[unroutable; C01]   table.numUnroutable.count == old(table.numUnroutable.count) +
+//@        ((pass && !(exists j int :: 0 <= j && j < len(c.routes) && accepts(c.routes[j], n1))) ? 1 : 0)
+//@   loop 1 (blacklist):
+//@     invariant[idx]   0 <= #i && #i <= len(#s) && #s == c.blacklist
+//@     invariant[none]  forall j int :: 0 <= j && j < #i ==> !matchSpec(*c.blacklist[j], f0)
+//@   loop 2 (rewriters):
+//@     invariant[idx]   0 <= #i && #i <= len(#s) && #s == c.rewriters
+//@     invariant[fold]  len(fields) == 3 && fields[0][..] == rwStep(cref, #i, f0) && fields[1][..] == field(B, 1) && fields[2][..] == field(B, 2)
+//@     invariant[own]   fields.arr != buf.arr && fresh(fields) && fields[0].arr != buf.arr && fields[1].arr != buf.arr && fields[2].arr != buf.arr
+//@   loop 3 (aggregators):
+//@     invariant[idx]   0 <= #i && #i <= len(#s) && #s == c.aggregators
+//@     invariant[open]  !consumedBy(c, n1, #i)
+//@     invariant[done]  forall j int :: 0 <= j && j < #i ==> (exists e elem :: calls(c.aggregators[j].AddMaybe) == old(calls(c.aggregators[j].AddMaybe)) ++ e)
+//@     invariant[todo]  forall j int :: #i <= j && j < len(c.aggregators) ==> calls(c.aggregators[j].AddMaybe) == old(calls(c.aggregators[j].AddMaybe))
+//@     invariant[wf]    confWf(c) && (forall j int :: 0 <= j && j < len(c.aggregators) ==> !c.aggregators[j].reCacheMutex.held)
+//@     invariant[fields] len(fields) == 3 && fields[0][..] == n1 && fields[1][..] == field(B, 1) && fields[2][..] == field(B, 2) && fresh(fields)
+//@     invariant[quiet] (forall r ref :: callsOf("route.Route.Dispatch", r) == old(callsOf("route.Route.Dispatch", r))) && table.numUnroutable.count == old(table.numUnroutable.count) && buf[..] == old(buf[..])
+//@   loop 4 (routes):
+//@     invariant[idx]    0 <= #i && #i <= len(#s) && #s == c.routes
+//@     invariant[final]  final[..] == line
+//@     invariant[copy]   fresh(final) && fields[0][..] == n1
+//@     invariant[routed] routed == (exists j int :: 0 <= j && j < #i && accepts(c.routes[j], n1))
+//@     invariant[done]   forall j int :: 0 <= j && j < #i ==>
+//@        calls(c.routes[j].Dispatch) == (accepts(c.routes[j], n1) ? old(calls(c.routes[j].Dispatch)) ++ lineElem(line, final.arr) : old(calls(c.routes[j].Dispatch)))
+//@     invariant[todo]   forall j int :: #i <= j && j < len(c.routes) ==> calls(c.routes[j].Dispatch) == old(calls(c.routes[j].Dispatch))
+//@     invariant[others] forall r ref :: (forall j int :: 0 <= j && j < len(c.routes) ==> c.routes[j].ref != r) ==>
+//@        callsOf("route.Route.Dispatch", r) == old(callsOf("route.Route.Dispatch", r))
+//@     invariant[counters] table.numUnroutable.count == old(table.numUnroutable.count) && confWf(c) && buf[..] == old(buf[..])
+//@     invariant[others_c] table.numIn.count == old(table.numIn.count) + 1 && table.numInvalid.count == old(table.numInvalid.count) && table.numOutOfOrder.count == old(table.numOutOfOrder.count)
+//@        && table.numBlacklist.count == old(table.numBlacklist.count) && sent(table.bad.In) == old(sent(table.bad.In))
